@@ -26,7 +26,7 @@ class EngineError(Exception):
 
 
 SOLVER_TIMEOUT_MS = 10000
-FEASIBILITY_TIMEOUT_MS = 2500
+FEASIBILITY_TIMEOUT_MS = 1500
 
 
 class Check:
@@ -199,6 +199,13 @@ class Ctx:
         t0 = time.time()
         neg = z3.Not(formula)
         r = self._check(neg)
+        if r == z3.unknown:
+            # one retry with a 4x budget before the obligation is reported as not discharged
+            self.solver.set("timeout", self.timeout_ms * 4)
+            try:
+                r = self._check(neg)
+            finally:
+                self.solver.set("timeout", self.timeout_ms)
         dt = time.time() - t0
         if r == z3.unsat:
             c = Check(oid, "discharged", seconds=dt, detail=detail)
